@@ -171,3 +171,63 @@ func runEncoders(r *hk.Run, rng *hk.Rand) {
 		r.Add(hk.Case{Desc: desc}, fmt.Sprint("enc|", desc), true)
 	}
 }
+
+// headermap.go: lowerHeader / canonicalHeader (the cached tables must agree with the general rule:
+// a wrong table entry would rename a header on the wire / in the response map), and
+// validWireHeaderFieldName, against net/http's CanonicalHeaderKey, strings.ToLower and the token
+// grammar.  gosync-free: the 57-entry table is walked through its own keys.
+func runHeaderMap(r *hk.Run, rng *hk.Rand) {
+	names := []string{"accept", "accept-charset", "accept-encoding", "accept-language", "accept-ranges", "access-control-allow-credentials",
+		"access-control-allow-headers", "access-control-allow-methods", "access-control-allow-origin", "access-control-expose-headers",
+		"access-control-max-age", "access-control-request-headers", "access-control-request-method", "age", "allow", "authorization",
+		"cache-control", "content-disposition", "content-encoding", "content-language", "content-length", "content-location", "content-range",
+		"content-type", "cookie", "date", "etag", "expect", "expires", "from", "host", "if-match", "if-modified-since", "if-none-match",
+		"if-range", "if-unmodified-since", "last-modified", "link", "location", "max-forwards", "origin", "proxy-authenticate",
+		"proxy-authorization", "range", "referer", "refresh", "retry-after", "server", "set-cookie", "strict-transport-security", "trailer",
+		"transfer-encoding", "user-agent", "vary", "via", "www-authenticate", "x-forwarded-for", "x-forwarded-proto",
+		"x-custom", "X-Custom", "x-UPPER", "a", "", "x y", "x\x00", "caf\xc3\xa9", "\xff", "x_y", "x.y", "9", "-", "x--y", "X-a-B", "éa", "x\x7f", "x\t"}
+	for i := 0; i < r.Scale(400, 20000); i++ {
+		names = append(names, string(rng.Bytes(rng.Range(1, 6))))
+		b := []byte(hk.Pick(rng, names[:58]))
+		if len(b) > 0 {
+			j := rng.Intn(len(b))
+			b[j] ^= 0x20
+			names = append(names, string(b))
+		}
+	}
+	isPrint := func(s string) bool {
+		for i := 0; i < len(s); i++ {
+			if s[i] < ' ' || s[i] > '~' {
+				return false
+			}
+		}
+		return true
+	}
+	for _, n := range names {
+		for _, v := range []string{n, http.CanonicalHeaderKey(n)} {
+			desc := map[string]interface{}{"kind": "headermap", "name": fmt.Sprintf("%q", v)}
+			r.Count("h2.headermap")
+			lo, ok := fh2.VerifLowerHeader(v)
+			wantLo, wantOK := "", isPrint(v)
+			if wantOK {
+				wantLo = strings.ToLower(v)
+			}
+			if lo != wantLo || ok != wantOK {
+				r.Fail(hk.Failure{Sig: "h2:headermap:lower", What: "lowerHeader is not ASCII lower-casing of a printable name", Input: desc, Got: fmt.Sprint(lo, ok), Want: fmt.Sprint(wantLo, wantOK)})
+			}
+			if c := fh2.VerifCanonicalHeader(v); c != http.CanonicalHeaderKey(v) {
+				r.Fail(hk.Failure{Sig: "h2:headermap:canonical", What: "canonicalHeader differs from http.CanonicalHeaderKey", Input: desc, Got: c, Want: http.CanonicalHeaderKey(v)})
+			}
+			wantWire := v != ""
+			for i := 0; i < len(v); i++ {
+				if !rfcTokenChar(v[i]) || (v[i] >= 'A' && v[i] <= 'Z') {
+					wantWire = false
+				}
+			}
+			if w := fh2.VerifValidWireHeaderFieldName(v); w != wantWire {
+				r.Fail(hk.Failure{Sig: "h2:headermap:wire-name", What: "validWireHeaderFieldName is not 'non-empty lower-case token'", Input: desc, Got: w, Want: wantWire})
+			}
+			r.Add(hk.Case{Desc: desc}, "hm|"+v, true)
+		}
+	}
+}
